@@ -54,7 +54,7 @@ func init() { Register(c16{}) }
 func (c16) ID() string       { return "C16" }
 func (c16) New() interface{} { return &C16Case{} }
 func (c16) Rule() string {
-	return "each run: one ORF (ATG, 10-40 codons of >= 8 amino acids, stop) and 1-70 sequences = random flank + copy of the ORF (substitutions 0-15%, occasional 3-nt indels, some reverse-complemented, at least one verbatim) + random flank; reference given (in 4 cases of 10 with 1-3 further reference ORFs, the ORF at a random rank) or searched, translate/reverse/cut-end on or off, 3 genetic codes, 1-32 workers; every synchronisation operation of Phase's goroutines and every take of the consumer is a seeded scheduling choice; a quarter of the runs contain a 2-nt sequence that makes translation fail inside a worker. Distinct = distinct hash of the released (goroutine, site) sequence; non-trivial = at least 2 workers and at least 3 sequences. One run in eight that ends without an error is followed by `goalign phase` / `phasent` executed through the command tree in the same process with the options of the case, a random subset of the optional outputs and plain / .gz / .xz files: the files must hold the rows the library call kept, in the order of the input."
+	return "each run: one ORF (ATG, 10-40 codons of >= 8 amino acids, stop) and 1-70 sequences = random flank + copy of the ORF (substitutions 0-15%, occasional 3-nt indels, some reverse-complemented, at least one verbatim) + random flank; reference given (in 4 cases of 10 with 1-3 further reference ORFs, the ORF at a random rank) or searched, translate/reverse/cut-end on or off, 3 genetic codes, 1-32 workers; every synchronisation operation of Phase's goroutines and every take of the consumer is a seeded scheduling choice; a quarter of the runs contain a 2-nt sequence that makes translation fail inside a worker. Distinct = distinct hash of the released (goroutine, site) sequence; non-trivial = at least 2 workers and at least 3 sequences. One run in five that ends without an error is followed by `goalign phase` / `phasent` executed through the command tree in the same process with the options of the case, a random subset of the optional outputs and plain / .gz / .xz files: the files must hold the rows the library call kept, in the order of the input."
 }
 
 var c16Codons = []string{"GAA", "TTC", "ATC", "CTG", "CCG", "CAG", "GCT", "AAA", "GGT", "CAT", "CGT", "TCT", "ACC", "GTT", "TGG", "TAC", "GAT", "AAC"}
@@ -104,7 +104,7 @@ func (c16) Gen(rs uint64, tier string, race bool) interface{} {
 		c.MatchCut = &v
 	}
 	c.Scores = r.Chance(0.15)
-	if r.Chance(0.12) {
+	if r.Chance(0.2) {
 		c.Cli = r.PickS("plain", "plain", ".gz", ".gz", ".xz")
 		c.CliOuts = r.Pick(7, 7, 1, 2, 3, 4, 5, 6, 0)
 	}
